@@ -1182,7 +1182,14 @@ impl OpLogRecord {
     }
 
     pub fn to_key(&self) -> String {
-        format!("{}_{}", self.db, self.key)
+        // Create database and snapshot records are written with the fixed key ids 1 and 2, ids
+        // that real keys have as well (key ids are handed out from 0): they get keys of their
+        // own, otherwise they replace the operation of that key in the list of pending operations
+        match self.opp {
+            ReplicateOpp::CreateDb => format!("{}_create_db", self.db),
+            ReplicateOpp::Snapshot => format!("{}_snapshot", self.db),
+            _ => format!("{}_{}", self.db, self.key),
+        }
     }
 
     pub fn to_string(&self) -> String {
